@@ -197,6 +197,27 @@ def a_sowCasesRunnerShuffle(T):
     return _runner_shuffle(T, 'sow_cases', 'case_runner', {'self.shuffle': onum('selfShuffle')})
 
 
+def a_sowCombosShuffleDefault(T):
+    """the default of sow_combos' `shuffle` parameter (what a call that leaves it out means)"""
+    f = find(T['cropping'], ['Crop', 'sow_combos'])
+    a = f.args
+    names = [x.arg for x in a.args]
+    if 'shuffle' in names:
+        i = names.index('shuffle') - (len(names) - len(a.defaults))
+        if i < 0: raise NotFound('shuffle has no default')
+        d = a.defaults[i]
+    else:
+        kn = [x.arg for x in a.kwonlyargs]
+        if 'shuffle' not in kn: raise NotFound('no shuffle parameter')
+        d = a.kw_defaults[kn.index('shuffle')]
+        if d is None: raise NotFound('shuffle has no default')
+    if isinstance(d, ast.Constant):
+        if d.value is None: return '(none : Option Int)'
+        if isinstance(d.value, bool): return f'(some {int(d.value)} : Option Int)'
+        if isinstance(d.value, int) and d.value >= 0: return f'(some {d.value} : Option Int)'
+    raise Untranslatable('default of shuffle: ' + ast.unparse(d))
+
+
 PYERR = 'Except PyErr'
 ANCHORS = [
     ('chooseBatchSettings',
@@ -212,6 +233,7 @@ ANCHORS = [
     ('sowCasesHead', '(batchsizeArg numBatchesArg batchsize numBatches shuffle : Option Int) : '
      f'{PYERR} (Option Int × Option Int × Option Int)', a_sowCasesHead),
     ('sowCombosRunnerShuffle', '(shuffleArg selfShuffle : Option Int) : Option Int', a_sowCombosRunnerShuffle),
+    ('sowCombosShuffleDefault', ': Option Int', a_sowCombosShuffleDefault),
     ('sowCasesRunnerShuffle', '(selfShuffle : Option Int) : Option Int', a_sowCasesRunnerShuffle),
     ('calcCleanUp', '(cleanUp : Option Bool) (allowIncomplete : Bool) : ' f'{PYERR} (Option Bool × Bool)', a_calcCleanUp),
     ('checkReady', '(allowIncomplete wait isReady : Bool) : ' f'{PYERR} Unit', a_checkReady),
